@@ -70,7 +70,7 @@ def hook_points(tree):
                 p = os.path.join(dp, fn)
                 with open(p, encoding="utf-8") as f:
                     txt = f.read()
-                if re.search(r"#\[cfg\(kani\)\]\s*\n\s*mod verif_kani;", txt):
+                if re.search(r"#\[cfg\(kani\)\]\s*\n(?:\s*#\[rustfmt::skip\][^\n]*\n)?\s*mod verif_kani;", txt):
                     if fn in ("lib.rs", "mod.rs", "main.rs"):
                         out.append(os.path.join(dp, "verif_kani.rs"))
                     else:
@@ -203,7 +203,7 @@ def write_evidence(prop, data):
 
 
 def load_known_findings():
-    """known_findings.txt: lines `KNOWN-FINDING: property=<id> obligation=<name> <text>` and
+    """known_findings.txt: lines `KNOWN-FINDING: property=<id> obligation=<name> [failing="<failed check text>"] <text>` and
     `fixed: property=<id> <commit> <text>` (the latter suppress nothing)."""
     out = []
     p = os.path.join(ROOT, "known_findings.txt")
@@ -211,7 +211,9 @@ def load_known_findings():
         return out
     for line in open(p):
         line = line.strip()
-        m = re.match(r"KNOWN-FINDING:\s+property=(\S+)\s+obligation=(\S+)\s+(.*)", line)
+        m = re.match(r"KNOWN-FINDING:\s+property=(\S+)\s+obligation=(\S+)\s+(?:failing=\"([^\"]*)\"\s+)?(.*)", line)
         if m:
-            out.append({"property": m.group(1), "obligation": m.group(2), "text": m.group(3)})
+            # `failing="<text>"`: the finding is this failed check only - every failed check of the obligation must
+            # mention it, otherwise the run is a different violation and is reported
+            out.append({"property": m.group(1), "obligation": m.group(2), "failing": m.group(3), "text": m.group(4)})
     return out
